@@ -165,6 +165,30 @@ func (n *normer) identLocal(id *ast.Ident, v *types.Var, usePos token.Pos, depth
 					rhs = as.Rhs[0]
 				}
 			}
+			// x, y := h(…) with a new helper that has a single reachable return: x is its first result, …
+			if as, isAs := stmt.(*ast.AssignStmt); isAs && rhs == nil && len(as.Rhs) == 1 && len(as.Lhs) >= 2 && n.fn.P != nil {
+				if call, isCall := Unparen(as.Rhs[0]).(*ast.CallExpr); isCall {
+					if h := n.fn.P.NewHelperCallee(n.fn, call); h != nil && h.Body != nil {
+						idx := -1
+						for i, l := range as.Lhs {
+							if l == lhs {
+								idx = i
+							}
+						}
+						var only *ast.ReturnStmt
+						count := 0
+						for _, b := range n.fn.P.CFG(h).Blocks {
+							if r := b.Return(); r != nil && b.Live {
+								only = r
+								count++
+							}
+						}
+						if idx >= 0 && count == 1 && len(only.Results) == len(as.Lhs) {
+							rhs = only.Results[idx]
+						}
+					}
+				}
+			}
 			if stmt.End() > usePos && stmt.Pos() <= usePos {
 				return // the use is inside this very statement (self reference): previous value
 			}
